@@ -764,7 +764,8 @@ func NewString(
 	def string,
 	hasDef bool,
 ) String {
-	r := uinttab[BitWidth32]
+	// RFC 6020 9.4.4: length boundaries go up to 18446744073709551615
+	r := uinttab[BitWidth64]
 	if initlen == nil {
 		initlen = &Length{
 			Lbs: []Lb{
